@@ -174,7 +174,7 @@ import models as md  # noqa: E402
 import concurrent.futures as cf  # noqa: E402
 
 
-def impl_model_stage(prefixes, expect_fail=(), orig_mutants=(), nonotify_mutants=()):
+def impl_model_stage(prefixes, expect_fail=(), orig_mutants=(), nonotify_mutants=(), keep=()):
     """Stage factory: exhaustive TLC runs of the fine-grained model MQImpl on the model scenarios whose name
     starts with one of `prefixes`, then behaviours generated from it are replayed in lockstep on the real
     crate (op kind, location and value compared at every step) and the recorded API traces validated."""
@@ -183,7 +183,8 @@ def impl_model_stage(prefixes, expect_fail=(), orig_mutants=(), nonotify_mutants
         allm = md.standard_models(tier) + md.known_finding_models()
         sel = [m for m in allm if any(m["name"].startswith(p) for p in prefixes)]
         if tier == "quick":
-            sel = [m for m in sel if m["N"] == 1 or m["name"].startswith(("spsc", "view", "norecv", "unsub2"))]
+            sel = [m for m in sel if m["N"] == 1 or m["name"].startswith(("spsc", "view", "norecv", "unsub2"))
+                   or m["name"] in keep]
         cov.setdefault("model_configs", [])
         cov.setdefault("lockstep_matched", 0)
         cov.setdefault("lockstep_drift", 0)
@@ -467,7 +468,7 @@ def check_C04(tier):
     return generic_check("C04", tier, ["C04", "C04C05"], scns, plans_for(tier), RULE_CONC +
                          "; the payload's Clone and the view closure contain a scheduling point, so the real code is "
                          "interleaved inside the clone/view" + RULE_IMPL,
-                         models=[impl_model_stage(["spmc_b", "disc_b", "view", "bview", "bcast2", "sibdrop_b"])])
+                         models=[impl_model_stage(["spmc_b", "disc_b", "view", "bview", "bcast2", "sibdrop_b"], keep=("spmc_b2", "sibdrop_b2"))])
 
 
 def check_C05(tier):
